@@ -3,7 +3,7 @@
    document) reported nothing  (proved here, for the regenerated schema)  => draft-4 valid  (the soundness half of C01,
    proved so far only outside the recorded finding classes; checked on every document by the L0 oracle). *)
 From Coq Require Import List ZArith Bool.
-From Verif Require Import Base.Sx Base.GoVal Schema.Ast Schema.Pipeline Result.ResultModel Spec.Orchestration
+From Verif Require Import Base.Sx Base.GoVal Base.F64 Schema.Ast Schema.Pipeline Schema.AgreementDec Schema.AgreementRec Schema.PipelineTermDec Gen.Swagger20 Result.ResultModel Spec.Orchestration
   Spec.Swagger20Facts.
 Import ListNotations.
 Open Scope Z_scope.
@@ -28,3 +28,23 @@ Theorem C02_accepted_implies_first_pass_valid : forall cont first rest,
   errs (fst (validate_spec cont (first :: rest))) = [] -> errs first = [].
 Proof. exact accepted_implies_first_pass_valid. Qed.
 Print Assumptions C02_accepted_implies_first_pass_valid.
+
+(* The regenerated Swagger 2.0 schema - recursive definitions (schema -> properties -> schema), patternProperties ("^x-", "^/"),
+   oneOf, not, formats, additionalProperties: false - lies inside the class on which the pipeline's verdict is proved to be the
+   draft-4 verdict (C01_recursive_agreement_for_the_binary64_model, data mode without null and without arrays: with arrays in
+   the document the format-next-to-type shortcut of type.go:200 leaves the class, a recorded C01 finding), with rank 3.
+   Re-checked on every run against the schema the code embeds.  This is the pre-check-free pipeline; the first pass of spec
+   validation adds the two Swagger pre-checks, which only add errors (first pass valid => draft-4 valid is then the soundness
+   half, decided per document by the L0 oracle). *)
+Definition sw_oracles : option oracles := match Gen.Swagger20.swagger20_case with L (o :: _) => get_oracles o | _ => None end.
+Definition sw_in_fragment : bool :=
+  match sw_oracles with
+  | Some orc =>
+      let K := 48%nat in
+      let R := fold_right Nat.max O (map (max_rank sw_env K 60) (roots sw_env sw_schema)) in
+      cleang_b f_finite false false orc sw_env K R 60 sw_schema
+  | None => false
+  end.
+Theorem C02_swagger20_schema_is_inside_the_agreement_fragment : sw_in_fragment = true.
+Proof. vm_compute. reflexivity. Qed.
+Print Assumptions C02_swagger20_schema_is_inside_the_agreement_fragment.
